@@ -1,5 +1,91 @@
 """C13, C14, C15 (specs/Pool.tla, specs/Listen.tla) and the multi-connection stages used by C06."""
+import json
+import os
+
 from .common import *
+from .conn_checks import validate_trace
+
+POOL_INVS = ["Bounded", "NoStranding", "CounterNonNegative", "DropAfterDrain", "NeverMoreThreadsThanMax"]
+
+
+def pool_consts(initial, mx, njobs, fixed=True, le=False, emit=False):
+    return {"Initial": initial, "Max": mx, "NJobs": njobs, "MaxWorkers": mx + 1,
+            "CountAtEnqueue": fixed, "LeLimit": le, "Emit": emit}
+
+
+def pool_model(res, initial, mx, njobs, tag, workers=8, timeout=1500):
+    cfg = write_cfg(os.path.join(res.wd, "MC_Pool_%s.cfg" % tag), spec="PlainSpec",
+                    constants=pool_consts(initial, mx, njobs), invariants=POOL_INVS)
+    r = run_tlc("MC_Pool", cfg, res.wd, workers=workers, timeout=timeout, tag="pool-" + tag)
+    res.add_tlc(r)
+    if r.violation:
+        res.tlc_violation(r, "MC_Pool %s" % tag)
+    return r
+
+
+def pool_liveness(res, initial, mx, njobs, tag):
+    cfg = write_cfg(os.path.join(res.wd, "MC_Pool_live_%s.cfg" % tag), spec="PlainFair",
+                    constants=pool_consts(initial, mx, njobs), properties=["EventuallyServed"])
+    r = run_tlc("MC_Pool", cfg, res.wd, workers=4, timeout=1500, tag="pool-live-" + tag)
+    res.add_tlc(r)
+    if r.violation:
+        res.tlc_violation(r, "MC_Pool liveness %s" % tag)
+    return r
+
+
+def pool_behaviours(res, initial, mx, njobs, n, tag):
+    cfg = write_cfg(os.path.join(res.wd, "MC_Pool_emit_%s.cfg" % tag), spec="HSpec",
+                    constants=pool_consts(initial, mx, njobs, emit=True), invariants=["Bounded", "NoStranding", "EmitCase"])
+    r = run_tlc("MC_Pool", cfg, res.wd, workers=1, simulate="num=%d" % n, extra=["-depth", "200"], tag="pool-emit-" + tag)
+    res.cmds.append(r.cmd)
+    return r.replay
+
+
+def check_C14(tier):
+    res = Result("C14", tier, "model_checking")
+    vh = build_harness()
+    thorough = tier == "thorough"
+    # (1) complete state-space enumeration of the pool model
+    cfgs = [(1, 1, 3), (1, 2, 3), (2, 3, 4)] if not thorough else \
+        [(1, 1, 3), (1, 2, 4), (2, 2, 4), (2, 3, 4), (3, 3, 4), (1, 3, 4), (3, 4, 5), (1, 4, 5), (2, 4, 5)]
+    for (i, m, n) in cfgs:
+        pool_model(res, i, m, n, "%d_%d_%d" % (i, m, n))
+    pool_liveness(res, 2, 3, 4, "2_3_4")
+    if thorough:
+        pool_liveness(res, 1, 4, 5, "1_4_5")
+    # (2) spec -> impl with forced schedules: TLC behaviours stepped through the real pool gate by gate
+    beh = []
+    for (i, m, n) in ([(1, 1, 2), (1, 2, 3), (2, 3, 4)] if not thorough else [(1, 1, 2), (1, 2, 3), (2, 3, 4), (3, 4, 5), (1, 4, 5), (2, 2, 3)]):
+        beh += pool_behaviours(res, i, m, n, 1500 if thorough else 250, "%d_%d_%d" % (i, m, n))
+    fails, summ, _ = run_vh(vh, ["pool"], beh, timeout=3000)
+    res.add_failures(fails, "forced-schedule")
+    res.traces += summ["executions"]
+    res.evaluations += summ["executions"]
+    res.extra["forced_schedule_steps"] = summ.get("steps", 0)
+    res.nontrivial = {json.dumps([b["initial"], b["max"], b["njobs"], [(a["a"], a["w"]) for a in b["h"]]]) for b in beh}
+    for b in beh[:2]:
+        res.sample({"initial": b["initial"], "max": b["max"], "njobs": b["njobs"],
+                    "schedule": ["%s(%s)" % (a["a"], a["w"]) for a in b["h"]]})
+    # (3) observed from outside through listen() only (no hooks): concurrency counted by the handler itself
+    fails, summ, _ = run_vh(vh, ["poolobs", "--tier=" + tier], [], timeout=3000)
+    res.add_failures(fails, "listen-observer")
+    res.traces += summ["executions"]
+    res.evaluations += summ["executions"]
+    # (4) impl -> spec: free-running random / sleep-injected schedules, probe log validated by Trace_Pool
+    tr = os.path.join(res.wd, "pooltrace.ndjson")
+    fails, summ, _ = run_vh(vh, ["pooltrace", "--runs=%d" % (2000 if thorough else 300), "--out=" + tr], [])
+    res.traces += summ["executions"]
+    res.evaluations += summ["executions"]
+    res.extra["trace_events"] = summ.get("events", 0)
+    validate_trace(res, "Trace_Pool", tr, "pooltrace",
+                   consts={"Initial": 1, "Max": 4, "NJobs": 5, "MaxWorkers": 6, "CountAtEnqueue": True, "LeLimit": False})
+    res.rule = ("Pool.tla: all interleavings of acceptor (count, send, decide) and workers (recv, start, finish, un-count) with long-lived "
+                "jobs for the listed (initial, max, jobs); behaviours sampled by TLC simulation are forced step by step onto the real pool "
+                "through blocking probes; non-trivial = distinct schedules replayed")
+    res.exhaustive = True
+    res.assumptions = ["probes are add-only and compiled in by --cfg varlink_rust_verif; a probe is logged after its state change",
+                       "log order of two dequeues may differ from channel order (Trace_Pool takes any queued message of the logged kind)"]
+    return res.finish()
 
 
 def neighbours_stage(res, vh, thorough, faulty=False):
